@@ -66,13 +66,15 @@ func c09Gen(r *core.Rng) c09case {
 		t := &k.Tasks[r.Intn(len(k.Tasks))]
 		c := &t.Cmds[r.Intn(len(t.Cmds))]
 		c.Fail = true
-		c.Form = core.Pick(r, []string{"exit", "exit", "false", "missing", "sh"})
+		c.Form = core.Pick(r, []string{"exit", "exit", "false", "missing", "sh", "signal"})
 		c.Status = core.Pick(r, []int{1, 2, 3, 127, 255, r.Range(1, 255)})
 		switch c.Form {
 		case "false":
 			c.Status = 1
 		case "missing":
 			c.Status = 127
+		case "signal":
+			c.Status = 137
 		}
 	}
 	// request: the last task (pulls in dependencies) or a random subset
@@ -116,6 +118,9 @@ func (k c09case) text(sb *sandbox) string {
 					body = fmt.Sprintf("test ! -e %s || nosuchprogram_verif_c09", flag)
 				case "sh":
 					body = fmt.Sprintf("test ! -e %s || sh -c 'exit %d'", flag, c.Status)
+				case "signal":
+					// the child shell kills itself: the command ends by signal, not by exit
+					body = fmt.Sprintf("test ! -e %s || sh -c 'kill -9 $$'", flag)
 				}
 			}
 			fmt.Fprintf(&b, "    printf '%%s\\n' %s.%d.start >> %s && %s && printf '%%s\\n' %s.%d.ok >> %s\n", t.Name, i, sb.Log, body, t.Name, i, sb.Log)
